@@ -95,6 +95,9 @@ def menu():
                                                                      '--attach-load=%d,2' % (2 if any(x.startswith('--load') for x in a) else 1)])
     for att in ('1,all', '1,all,1', '1,all,2', '1,2,2', '1,1,1', '1,all,7', '1,all,9', '1,2,5'):
         add('attach=' + att, lambda a, att=att: drop(drop(a, '--load'), '--attach-load') + ['--load=7+2j', '--attach-load=' + att])
+    # one load attached to the same pulse more than once (documented: acts as a series connection)
+    add('attach-twice', lambda a: drop(drop(a, '--load'), '--attach-load') + ['--load=7+2j', '--attach-load=1,2', '--attach-load=1,2', '--attach-load=1,3'])
+    add('attach-all+again', lambda a: drop(drop(a, '--load'), '--attach-load') + ['--load=7+2j', '--attach-load=1,all,1', '--attach-load=1,2,1'])
     add('rlc-attached-first', lambda a: drop(drop(a, '--load'), '--attach-load') + ['--load=7+2j', '--rlc-load=5,1e-6,', '--attach-load=2,1', '--attach-load=1,3'])
     add('laplace-trap-impedance-order', lambda a: drop(drop(a, '--load'), '--attach-load') + ['--load=7+2j', '--trap-load=2,1e-6,50e-12', '--laplace-load-a=1,2e-9', '--laplace-load-b=10,3e-6',
                                                                                            '--attach-load=3,1', '--attach-load=2,2', '--attach-load=1,3'])
